@@ -154,6 +154,10 @@ def check_quantity(q, c, model, want_cgs=False):
     except KeyError as e:
         return "unit %s has a symbol the registry model cannot resolve: %s" % (u, e)
     v = float(q.value)
+    # a reading on an offset temperature scale denotes (reading + zero point) degrees above absolute zero
+    # (zero points from the definitions of the Celsius and Fahrenheit scales, not from the package)
+    zero_point = {"degC": 273.15, "degF": 459.67}.get(str(u.expr), 0.0)
+    v = v + zero_point
     if u.dimensions == si_dims:
         target = c["si"]
     elif c["pure_charge"] and u.dimensions == dims_of_frac(gaussian(c["exps"])):
@@ -301,6 +305,16 @@ SPECS["custom/derived"] = spec(
     "_us['energy'] = 'BTU'\n_us['velocity'] = 'mph'\n_us['mass'] = 'Mearth'\n"
     "reg = UnitRegistry(unit_system='c15_derived')\n",
     {}, "c15_derived", {"km", "Mearth", "hr", "R", "rad", "A", "cd", "Np", "BTU", "mph"})
+# unit systems whose base temperature unit has a zero point (degC / degF): a constant given in K (Tcmb,
+# planck_temperature) is a point on that scale after conversion, not a multiple of "1 K in base units"
+SPECS["custom/degC-base"] = spec(
+    "unyt.UnitSystem('c15_degc', 'm', 'kg', 's', temperature_unit='degC')\n"
+    "reg = UnitRegistry(unit_system='c15_degc')\n",
+    {}, "c15_degc", {"m", "kg", "s", "degC", "rad", "A", "cd", "Np"})
+SPECS["custom/degF-base"] = spec(
+    "unyt.UnitSystem('c15_degf', 'ft', 'lb', 's', temperature_unit='degF')\n"
+    "reg = UnitRegistry(unit_system='c15_degf')\n",
+    {}, "c15_degf", {"ft", "lb", "s", "degF", "rad", "A", "cd", "Np"})
 # a registry in which an SI-named unit of the constants table itself is redefined: every
 # constant whose table unit mentions kg is then read in the registry's own kilogram
 SPECS["cgs/g-modified"] = mod_spec("cgs", [("g", 1.1e-3)])
